@@ -285,6 +285,87 @@ impl DependencyGraph {
             Ok(())
         }
     }
+
+    /// Returns `Ok` if no error handler depends, directly or transitively, on the value whose
+    /// construction failed—i.e. the `Ok` variant of the very same fallible component it is
+    /// supposed to handle the error for.
+    /// Otherwise it emits error diagnostics and returns `Err`.
+    ///
+    /// There is no cycle in the dependency graph in this case (the `Ok` and the `Err` variants are
+    /// different nodes), but we'd either fail to generate code for the error handler or,
+    /// for transient components, get stuck in an infinite loop when building the call graph.
+    pub(super) fn assert_error_handlers_do_not_need_the_failed_value(
+        &self,
+        component_db: &ComponentDb,
+        computation_db: &ComputationDb,
+        diagnostics: &crate::diagnostic::DiagnosticSink,
+    ) -> Result<(), ()> {
+        let find_node = |id: ComponentId| {
+            self.graph.node_indices().find(|&index| {
+                matches!(&self.graph[index], DependencyGraphNode::Compute { component_id } if *component_id == id)
+            })
+        };
+        let mut is_ok = true;
+        for node_index in self.graph.node_indices() {
+            let DependencyGraphNode::Compute {
+                component_id: err_match_id,
+            } = &self.graph[node_index]
+            else {
+                continue;
+            };
+            let Some(&error_handler_id) = component_db.error_handler_id(*err_match_id) else {
+                continue;
+            };
+            let fallible_id = component_db.fallible_id(*err_match_id);
+            let Some(&(ok_match_id, _)) = component_db.match_ids(fallible_id) else {
+                continue;
+            };
+            let (Some(ok_index), Some(error_handler_index)) =
+                (find_node(ok_match_id), find_node(error_handler_id))
+            else {
+                continue;
+            };
+            if !petgraph::algo::has_path_connecting(
+                &self.graph,
+                ok_index,
+                error_handler_index,
+                None,
+            ) {
+                continue;
+            }
+            is_ok = false;
+            let as_path = |id: ComponentId| match component_db
+                .hydrated_component(id, computation_db)
+                .computation()
+            {
+                Computation::Callable(c) => c.to_string(),
+                c => format!("{:?}", c.output_type()),
+            };
+            let fallible_path = as_path(fallible_id);
+            let error_handler_path = as_path(error_handler_id);
+            let ok_type = component_db
+                .hydrated_component(ok_match_id, computation_db)
+                .output_type()
+                .cloned()
+                .unwrap();
+            let error = anyhow::anyhow!(
+                "`{error_handler_path}` is the error handler for `{fallible_path}`, \
+                but it depends on `{ok_type:?}`, the value that `{fallible_path}` \
+                has just failed to build.\n\
+                If `{fallible_path}` returns an error, there is no `{ok_type:?}` that I can pass \
+                (or use to build what must be passed) to `{error_handler_path}`."
+            );
+            diagnostics.push(
+                CompilerDiagnostic::builder(error)
+                    .help(format!(
+                        "Remove `{ok_type:?}`, and everything that depends on it, from the \
+                        input parameters of `{error_handler_path}`."
+                    ))
+                    .build(),
+            );
+        }
+        if is_ok { Ok(()) } else { Err(()) }
+    }
 }
 
 fn cycle_error(
